@@ -18,6 +18,7 @@ from __future__ import annotations
 from harness import detsched, fakeproc, loader
 
 HELPERS = ("EventDebouncer", "ProcessWatcher")
+RUNAWAY_KEEP = 60
 MAX_STEPS = 1200  # the programs here take < 400 scheduler steps; a run-away loop is cut here (line `steplimit`)
 
 
@@ -96,7 +97,8 @@ def _wrap(program, unit, hdr, sched_kw):
             tr.append({"t": "sched", "e": "deadlock", "blocked": [f"{x['task']}@{x['at']}" for x in d.info]})
             return {"trace": tr, "deadlock": True}
         except detsched.StepLimit:
-            tr = _post(s, unit, hdr)
+            # a run-away loop: the first lines tell the story (and keep the validation of the trace cheap)
+            tr = _post(s, unit, hdr)[:RUNAWAY_KEEP]
             tr.append({"t": "sched", "e": "steplimit", "steps": s.steps})
             return {"trace": tr, "steplimit": True}
         return {"trace": _post(s, unit, hdr)}
